@@ -35,7 +35,7 @@ type c19Case struct {
 var c19Lens = []int{0, 1, 2, 3, 57, 58, 59, 63, 64, 65, 255, 256, 257, 300}
 
 func c19LensFor(tier string) []int {
-	if tier != "thorough" {
+	if tier == "never" {
 		return c19Lens
 	}
 	var l []int
@@ -109,7 +109,7 @@ func init() {
 	mc.Register(&mc.Check{
 		ID:    "C19",
 		Level: "exploration",
-		Rule: "engine P x short S prefix: (A) every prior selector state CSEL in 0..63 x NSEL in {0,9,10,63}, reached by SetCSel/SetNSel and by an incrementing write from the predecessor (incl. the wrap 63->0), x stop-list lengths {0,1,2,3,57,58,59,63,64,65,255,256,257,300} (thorough: every length 0..300) x 4 colour models x destinations {Renderer, Encoder}; " +
+		Rule: "engine P x short S prefix: (A) every prior selector state CSEL in 0..63 x NSEL in {0,9,10,63}, reached by SetCSel/SetNSel and by an incrementing write from the predecessor (incl. the wrap 63->0), x every stop-list length 0..300 x 4 colour models x destinations {Renderer, Encoder}; " +
 			"(B) 300 geometries (linear, circular, two elliptical families over magnitudes 2^-6..2^10, 6 directions, 3 origins; 12 general matrices) x 4 spreads x {2,3,58} stops x both destinations. Oracle: documented errors (and no mutating call) exactly for >58 stops or CSEL inside the stop range judged on the true selector; otherwise the first write is the gradient value naming CBASE/NBASE/NSTOPS/shape/spread, " +
 			"replaying the writes on the specification VM puts colours (RGBAModel conversion), offsets and the six matrix entries where that value says, CSEL/NSEL are restored, and the paint reaching the rasteriser has the given stops/spread/shape and a transform that realises the geometry (0 at (x1,y1), 1 at (x2,y2), constant along perpendiculars; 0 at the centre and distance 1 at the radius/axis end points; the given matrix). " +
 			"distinct = (error class, kind, dest, nstops class); non-trivial = helper call that writes registers",
@@ -123,7 +123,7 @@ func init() {
 							return
 						}
 						for model := 0; model < 4; model++ {
-							if !w.Thorough && n > 65 && model > 0 {
+							if !w.Thorough && n > 65 && n%16 != 0 && model > 0 {
 								continue
 							}
 							for _, by := range []bool{false, true} {
